@@ -10,12 +10,12 @@ export CARGO_NET_OFFLINE=true
 W=/tmp/pm-$slot
 if [ ! -d "$W" ]; then git -C /repo worktree add --detach "$W" HEAD >/dev/null 2>&1 || { echo "cannot create worktree $W"; exit 3; }; fi
 cd "$W" && git checkout -q --detach "$(git -C /repo rev-parse HEAD)" && git checkout -q -- . && git clean -fdq -e target -e .pfv
-V="$W/.pfv/verif"; H="$W/.pfv/harness"
+V="$W/.pfv/verif"; H="$V/harness"
 mkdir -p "$V" "$W/.pfv"
 rsync -a --delete --exclude target /verif/harness/ "$H/"
 sed -i "s|path = \"/repo\"|path = \"$W\"|" "$H/Cargo.toml"
-printf '[net]\noffline = true\n[build]\ntarget-dir = "%s/.pfv/target"\n' "$W" > "$H/.cargo/config.toml"
-rsync -a --delete /verif/py/ "$V/py/"; cp /verif/known_findings.json "$V/"; mkdir -p "$V/work" "$V/evidence" "$V/replays" "$V/fuzz"; rm -f "$V"/replays/*.json
+printf '[net]\noffline = true\n[build]\ntarget-dir = "../target/harness"\n' > "$H/.cargo/config.toml"
+rsync -a --delete /verif/py/ "$V/py/"; rsync -a --delete /verif/fuzz/ "$V/fuzz/" --exclude target; cp /verif/known_findings.json "$V/"; mkdir -p "$V/work" "$V/evidence" "$V/replays" "$V/fuzz"; rm -f "$V"/replays/*.json
 git apply --check "$patch" 2>/dev/null || { echo "patch does not apply: $patch"; exit 3; }
 git apply "$patch"
 if [ "${SKIP_BASELINE:-0}" != 1 ]; then
@@ -24,7 +24,7 @@ fi
 if ! (cd "$H" && cargo build --release --offline >"$W/.pfv/build.log" 2>&1); then echo "harness build failed"; tail -5 "$W/.pfv/build.log"; git checkout -q -- .; exit 2; fi
 for id in "$@"; do
   t0=$(date +%s.%N)
-  out=$(VERIF_DIR="$V" VERIF_REPO="$W" VERIF_SEED="${VERIF_SEED:-1}" "$W/.pfv/target/release/pfverif" check "$id" "$tier" 2>&1); code=$?
+  out=$(VERIF_DIR="$V" VERIF_REPO="$W" VERIF_SEED="${VERIF_SEED:-1}" "$V/target/harness/release/pfverif" check "$id" "$tier" 2>&1); code=$?
   t1=$(date +%s.%N)
   line=$(echo "$out" | grep -E "^(VIOLATION|INCONCLUSIVE)" | head -1 | sed "s|$V|<scratch>|")
   sig=$(echo "$out" | grep -E "^  signature:" | head -1)
